@@ -93,4 +93,8 @@ MUTANTS += [
          edits=[dict(file="reorder_glyphs.py", old="                for reorder in _REORDER_RULES.get(reorder_key, []):\n                    reorder.apply(font, value)", new="                for reorder in _REORDER_RULES.get(reorder_key, []):\n                    reorder.apply(font, value)\n            return")]),
     dict(id="c11-benign-continue-trivial-coverage", props=["C11", "C12"], expect="silent",
          edits=[dict(file="reorder_glyphs.py", old="            for coverage_entry in coverage:\n", new="            for coverage_entry in coverage:\n                if len(coverage_entry.glyphs) < 2:\n                    continue\n")]),
+    dict(id="c11-caller-sets-glyph-order", props=["C11", "C12"], expect="R11g",
+         edits=[dict(file="glue_together.py", old="    reorder_glyphs(target, new_glyph_order)", new="    target.setGlyphOrder(new_glyph_order)\n    reorder_glyphs(target, new_glyph_order)")]),
+    dict(id="c11-benign-early-exit-same-order", props=["C11", "C12"], expect="silent",
+         edits=[dict(file="reorder_glyphs.py", old="    old_glyph_order = font.getGlyphOrder()\n", new="    old_glyph_order = font.getGlyphOrder()\n    if list(new_glyph_order) == list(old_glyph_order):\n        return\n")]),
 ]
